@@ -377,7 +377,64 @@ def wrapper_worker(args):
     return hutil.export(chk)
 
 
+def routing_worker(args):
+    """multi-argument wrappers: every argument reaches its own parameter (order, width, sign)"""
+    prop, tier, kind, fname = args
+    chk = hutil.sub_check(prop, tier)
+    back = irgen.backend()
+    gen = generated_module()
+    label = 'wrapper-routing:%s' % fname
+    st = pystubs.stubs()
+    ex = llsym.Executor([gen, back], st, loop_bound=16)
+
+    def h(ex):
+        py = pystubs.PyEnv(ex)
+        src, dst = ex.gaddr('cffi_exports'), ex.gaddr('_cffi_exports')
+        for k in range(back.sizeof(back.globals['cffi_exports'].ty) // 8):
+            ex.mem.store(dst + 8 * k, ex.mem.load(src + 8 * k, 8), 8)
+        ex.stubs['PyEval_SaveThread'] = lambda e: 0x77
+        ex.stubs['PyEval_RestoreThread'] = lambda e, t: None
+        cell = ex.mem.alloc(4, 'errno', 'heap', fill=0)
+        ex.stubs['__errno_location'] = lambda e: cell.base
+
+        def unpack(e, args_, name, lo, hi, *outs):
+            items = py.info(simp(args_))['items']
+            for o, it in zip(outs, items):
+                e.mem.store(o, it, 8)
+            return 1
+        ex.stubs['PyArg_UnpackTuple'] = unpack
+        if fname == 'mix2':
+            spec = [(2, True), (8, False)]
+        else:
+            spec = [(1, False), (4, True), (8, True)]
+        Vs, inputs, conds = [], {}, []
+        for i, (size, sg) in enumerate(spec):
+            V = z3.BitVec('a%d' % i, W)
+            lo, hi = (-(1 << (8 * size - 1)), (1 << (8 * size - 1)) - 1) if sg else (0, (1 << (8 * size)) - 1)
+            ex.assume(z3.And(V >= V_const(lo), V <= V_const(hi)))
+            Vs.append(V)
+            inputs['a%d' % i] = V
+        r = simp(ex.call('_cffi_f_' + fname, [0, py.new_tuple([py.new_int(V) for V in Vs])]))
+        hutil.witness(chk, ex, label)
+        okk = is_c(r) and r != 0 and py.exc is None
+        hutil.discharge(chk, ex, label + ':in-range-arguments-accepted', okk, inputs)
+        if okk:
+            got = py.info(r)['V']
+            if fname == 'mix2':
+                want = z3.SignExt(W - 64, z3.Extract(63, 0, Vs[0]) + z3.Extract(63, 0, Vs[1]))     # a + (long long)b, wrapping
+            else:
+                want = Vs[1]
+            hutil.discharge(chk, ex, label + ':each-argument-reached-its-own-parameter', got == want, inputs)
+
+    res = ex.explore(h, max_paths=2000)
+    hutil.finish_explore(chk, ex, res, label)
+    chk.functions = irgen.func_info(gen, sorted(ex.called)) + irgen.func_info(back, sorted(ex.called))
+    return hutil.export(chk)
+
+
 def dispatch(args):
+    if args[2] == 'routing':
+        return routing_worker(args)
     if args[2] == 'fbstruct':
         return fbstruct_worker(args)
     return (fb_worker if args[2] == 'fb' else wrapper_worker)(args)
@@ -391,14 +448,16 @@ def run(chk):
         cases.append(P + ('fbstruct', depths))
     for i, (t, size, sg) in enumerate(INT_TYPES):
         cases.append(P + ('int', 'id_i%d' % i, t, size, sg))
+    cases.append(P + ('routing', 'mix2'))
+    cases.append(P + ('routing', 'second3'))
     cases.append(P + ('bool', 'id_b', '_Bool', 1, False))
     cases.append(P + ('double', 'id_d', 'double', 8, True))
     cases.append(P + ('double', 'id_f', 'float', 4, True))
     chk.bounds = {'exchange buffer': 'result + 0..%d arguments, each of symbolic size 1..64 and alignment 1,2,4,8,16' % (3 if quick else 6),
                   'struct by value': 'a struct argument whose fields are scalars or arrays of up to %d dimensions, every length 1..3' % (2 if quick else 3),
-                  'generated wrappers': 'identity functions over %d integer types/typedefs, _Bool, float, double: every Python int / double' % len(INT_TYPES)}
+                  'generated wrappers': 'identity functions over %d integer types/typedefs, _Bool, float, double: every Python int / double; two multi-argument functions (argument routing)' % len(INT_TYPES)}
     chk.outside = ['libffi itself (assembly) and its ABI classification of the described struct; variadic calls',
-                   'dlopen paths (they reach the same cdata_call)', 'pointer/char/struct arguments of generated wrappers, multi-argument routing',
+                   'dlopen paths (they reach the same cdata_call)', 'pointer/char/struct arguments of generated wrappers',
                    'return-value conversion differences for narrow types (both paths use the same _cffi_from_c_* / convert_to_object kernels)']
     chk.assume('the generated module is produced by the working tree\'s Recompiler at run time and compiled with the backend\'s flags; '
                '_cffi_exports[] is bound to the backend\'s cffi_exports[] as _cffi_init does')
